@@ -37,7 +37,7 @@ def g_white(draw):
     n = gen.integer(draw, F + 2, 30)
     X, _ = full_rank_data(draw, n, F)
     return {"X": X, "pinv": gen.choice(draw, [False, False, True]), "dask": gen.boolean(draw),
-            "chunks": gen.composition(draw, n, max_parts=5)}
+            "chunks": gen.composition(draw, n, max_parts=5), "how": gen.choice(draw, ["plain", "plain", "fortran", "strided"])}
 
 
 def darr(X, chunks):
@@ -66,7 +66,9 @@ def c_white(ctx, case):
     if cond > 1e6:
         ctx.discard("ill-conditioned covariance")
     ctx.note(True, "dask" if case["dask"] else "numpy", "pinv" if case["pinv"] else "inv")
-    w = Whitening(pinv=case["pinv"]).fit(X)
+    from vf import sut
+
+    w = Whitening(pinv=case["pinv"]).fit(sut.present(X, case.get("how", "plain")))
     W = np.asarray(w.weights, float)
     lower_pos(ctx, W, "whitening")
     Y = np.asarray(w.transform(X), float)
@@ -115,7 +117,7 @@ def g_wccn(draw):
     return {"X": X, "cls": cls, "names": [int(v) for v in names], "other_names": [int(v) for v in other],
             "perm2": gen.permutation(draw, n), "pinv": gen.choice(draw, [False, False, True]),
             "as_list": gen.boolean(draw), "dask": gen.boolean(draw), "chunks": gen.composition(draw, n, max_parts=4),
-            "style": style}
+            "style": style, "how": gen.choice(draw, ["plain", "plain", "fortran", "strided"])}
 
 
 def within_scatter(Y, cls):
@@ -144,7 +146,9 @@ def c_wccn(ctx, case):
     yarg = y.tolist() if case["as_list"] else y
     ctx.note(K >= 2 and case["names"] != list(range(K)), "labels:" + case["style"], "K=%d" % K,
              "dask" if case["dask"] else "numpy", "pinv" if case["pinv"] else "inv", "list-y" if case["as_list"] else "array-y")
-    w = WCCN(pinv=case["pinv"]).fit(X, yarg)
+    from vf import sut
+
+    w = WCCN(pinv=case["pinv"]).fit(sut.present(X, case.get("how", "plain")), yarg)
     W = np.asarray(w.weights, float)
     lower_pos(ctx, W, "WCCN")
     Y = np.array([np.asarray(v, float) for v in w.transform(X)])
